@@ -36,7 +36,6 @@ CLASS_TO_FINDING = {
     "meaning:cond-multiline": "C12-conditional-multiline-first-line-only",
     "syntax:missing-comma": "C12-u2-u3-text-malformed",
     "syntax:stray-semicolon": "C12-u2-u3-text-malformed",
-    "syntax:double-minus": "C12-negative-angle-double-minus",
     "meaning:measure-all-basis-not-restored": "C12-measure-all-xy-not-rotated-back",
     "meaning:empty-control": "C12-empty-control-exported-unconditionally",
     "meaning:target-beyond-controls": "C12-target-bits-beyond-controls-ignored",
@@ -75,7 +74,7 @@ SPEC = {
                  "cq_param_cry_blocks_partial", "cq_param_crx_blocks_partial",
                  "neg_repeated_control_bit", "neg_target_beyond_controls", "neg_conditional_multiline",
                  "neg_measure_all_basis_not_restored", "neg_empty_control", "neg_nested_loop", "neg_unknown_instruction",
-                 "neg_kron_bundle", "neg_parameter_text", "neg_panics", "neg_ccrz_block_is_u1"],
+                 "neg_kron_bundle", "neg_parameter_text", "cry_negative_angle_wellformed", "neg_panics", "neg_ccrz_block_is_u1"],
     "drivers": ["drv_c12"],
     "harness_bin": "c12",
     "canon": canon,
